@@ -1737,7 +1737,10 @@ public:
       m_is_bottom = m_base_dom.is_bottom();
     }
     
-    if (!m_is_bottom && ref_cst.is_equality()) {
+    // p == q + k says that p and q point into the same memory object:
+    // their sizes are equal, they do not differ by k. Only the plain
+    // equality p == q is translated.
+    if (!m_is_bottom && ref_cst.is_equality() && ref_cst.offset() == 0) {
       auto size_lin_csts =
 	convert_ref_cst_to_linear_cst(ref_cst, ghost_variable_kind::SIZE);
       m_base_dom += size_lin_csts;
